@@ -179,9 +179,15 @@ pub async fn run(source: Source, drain: bool) -> RunResult {
         let budget = 60 * (sim.jobs().iter().map(|j| j.n_tasks as usize).sum::<usize>() + 10);
         let mut steps = 0usize;
         monitors.drain_started(&sim);
+        // A replayed witness usually ends with the drain of the run it was recorded from. If the
+        // system is already at rest with those drain workers connected, connecting three more
+        // would wake the scheduler up again and hide exactly the stuck state the witness shows.
+        let already_drained = generator.is_none()
+            && next_drain_action(&mut sim).is_none()
+            && sim.workers.values().filter(|w| !w.stopped && w.spec.group == "drain").count() >= 3;
         // capable workers: enough of one group for the largest multi-node request
         let mut drain_workers = Vec::new();
-        for _ in 0..3 {
+        for _ in 0..(if already_drained { 0 } else { 3 }) {
             let a = Action::Connect(drain_worker_spec());
             sim.shared.borrow_mut().step += 1;
             actions.push(a.clone());
